@@ -1979,6 +1979,10 @@ class UserSpaceImpl(*_user_space_impl_base):
         self.clear_subs_rootitems()
         self.del_all_itemspaces()
         self.clear_refs_referrers(recursive=False)
+        for ref in self.own_refs.values():
+            if ref.is_defined():
+                # Delete IOSpecs whose values are no longer referenced
+                self.model.refmgr.forget_ref(ref)
         super().on_delete()
 
     def clear_refs_referrers(self, recursive):
